@@ -13,6 +13,10 @@ import (
 
 type vfUserKey struct{ n int }
 
+type vfMutableItem struct{ s string }
+
+func (m *vfMutableItem) String() string { return m.s }
+
 // an application-made decoration and one derived from it by copying and changing the corners come
 // first (they share whatever a struct copy shares), then registered ones
 var vfC14Decos = []string{"<custom>", "<derived>", "utf8-heavy", "none", "utf8-light", "utf8-light-curved", "ascii-simple", "utf8-double"}
@@ -137,6 +141,9 @@ func VerifC14_repeat() {
 	t.AddRowItems(vfString("a", 2, vfLINE), "x")
 	t.AddSeparator()
 	t.AddRowItems(vfString("b", 1, vfLINE))
+	stale := &vfMutableItem{"snapshot"}
+	t.AddRowItems(stale, tabular.Cell{})
+	stale.s = "changed-without-update"
 	t.SetProperty(key, 1)
 	t.Column(0).SetProperty(key, 2)
 	t.Column(2).SetProperty(key, 3)
